@@ -348,9 +348,11 @@ def check_silent_degrade(chk, prog):
             if tgt[0] == 'ext' and SPEC.get(tgt[1], {}).get('degrades'):
                 n += 1
                 bad += 1
-                chk.add(Finding('C17.silent-degrade', info['decl'].get('_f'), k[1], tgt[1],
-                                '%s() result is returned to the caller / built into the token; %s' % (tgt[1], SPEC[tgt[1]]['degrades']),
-                                line=node.get('_l')))
+                # identified by file and callee, not by the enclosing function: inlining or extracting a helper moves the call
+                # without changing what fails
+                chk.add(Finding('C17.silent-degrade', info['decl'].get('_f'), '*', tgt[1],
+                                '%s() (called in %s) result is returned to the caller / built into the token; %s'
+                                % (tgt[1], k[1], SPEC[tgt[1]]['degrades']), line=node.get('_l')))
     chk.rule('C17.silent-degrade', 'call sites of library functions that the API model marks as degrading silently under allocation failure',
              max(n, 1), bad, floor=1)
 
